@@ -18,6 +18,10 @@ class Unsupported(Exception):
     pass
 
 
+class SpecAbort(Exception):
+    pass
+
+
 class PathAbort(Exception):
     """The forced decision prefix is infeasible, or the path was cut (loop back edge)."""
 
@@ -134,7 +138,20 @@ class Ctx:
         if c is True or z3.is_true(c):
             return
         self.pc.append(c)
-        self.solver.add(c)
+        if has_quantifier(c):
+            # quantified facts are kept for the obligations but not given to the path solver:
+            # feasibility checks stay fast and merely over-approximate (an infeasible path that is
+            # explored costs time, never soundness: its obligations carry the full path condition)
+            self.nquant = getattr(self, 'nquant', 0) + 1
+        else:
+            self.solver.add(c)
+
+    def define(self, c):
+        """a universally valid fact about a term just created (an instance of a prelude law): survives
+        the end of a speculative evaluation, unlike path-specific assumptions"""
+        if self.ghost.get('speculating', 0):
+            self.ghost.setdefault('spec_defs', []).append(c)
+        self.assume(c)
 
     def feasible(self, c=None):
         self.nchecks += 1
@@ -164,6 +181,14 @@ class Ctx:
                 return self.feasible() if n > 1 else True
             return self.feasible(o)
 
+        if self.ghost.get('speculating', 0):
+            # inside a speculative (merge) evaluation only decisions with a single feasible option
+            # are allowed; they are not recorded
+            feas = [j for j in range(n) if ok(j)]
+            if len(feas) != 1:
+                raise SpecAbort()
+            self.assume(opts[feas[0]])
+            return feas[0]
         if i < len(self.prefix):
             k = self.prefix[i]
             if k >= n or not ok(k):
@@ -201,6 +226,26 @@ class Ctx:
     def count(self, key):
         self.counters[key] = self.counters.get(key, 0) + 1
         return self.counters[key] - 1
+
+
+_HQ = {}
+
+
+def has_quantifier(e, depth=0):
+    if not is_z3(e):
+        return False
+    i = e.get_id()
+    r = _HQ.get(i)
+    if r is not None:
+        return r
+    if z3.is_quantifier(e):
+        r = not e.is_lambda()
+    elif depth > 40:
+        r = False
+    else:
+        r = any(has_quantifier(c, depth + 1) for c in e.children())
+    _HQ[i] = r
+    return r
 
 
 def type_of(v):
@@ -361,7 +406,7 @@ class Interp:
             return cands[k][1]
         mk = self.ctx.ghost.get('unknown_factory')
         if mk is None:
-            raise Unsupported('reference to unknown heap object')
+            return Opaque('ref', rid)       # an object the engine knows nothing about
         return mk(self, rid)
 
     def to_val(self, v):
@@ -642,6 +687,8 @@ class Interp:
         scratch = Env(dict(env.vars), env.parent)
         ctx.solver.push()
         saved = (len(ctx.pc), len(ctx.taken), len(ctx.obls), list(ctx.prefix), dict(ctx.counters))
+        outer_defs = ctx.ghost.get('spec_defs')
+        ctx.ghost['spec_defs'] = []
         ctx.solver.add(cond)
         ctx.pc.append(cond)
         old_guard = ctx.ghost.get('speculating', 0)
@@ -666,6 +713,10 @@ class Interp:
             del ctx.obls[saved[2]:]
             ctx.prefix = saved[3]
             ctx.counters = saved[4]
+            defs = ctx.ghost.get('spec_defs', [])
+            ctx.ghost['spec_defs'] = outer_defs
+            for c in defs:
+                ctx.define(c)        # re-assert at the enclosing level (or pass on to the outer speculation)
         return out if ok else None
 
     def heap_write_guard(self):
@@ -867,6 +918,9 @@ class Interp:
         (a) one more iteration -> body -> assert inv, variant decreased -> cut, or (b) exit."""
         ctx = self.ctx
         name = f'{key}/loop{k}'
+        from .apply import Old
+        from .heap import snapshot
+        ctx.ghost['loop_old'] = Old(snapshot({kk: v for kk, v in env.vars.items()}))
         self.check_invariant(spec, env, f'{name}/inv-entry', index_var)
         self.havoc_loop(spec, env, node, index_var)
         if index_var is not None and bounds is not None:
@@ -948,7 +1002,7 @@ class Interp:
         return self.call_ast(f, args, {})
 
     def havoc_loop(self, spec, env, node, index_var):
-        from .heap import havoc_value, snapshot
+        from .heap import havoc_value, havoc_inplace, snapshot
         assigned = set()
         for n in ast.walk(ast.Module(body=node.body, type_ignores=[])):
             if isinstance(n, ast.Name) and isinstance(n.ctx, ast.Store):
@@ -959,13 +1013,145 @@ class Interp:
                     assigned.add(n.id)
         if index_var:
             assigned.add(index_var)
-        # snapshot of loop-entry state for `loop_old`
-        self.ctx.ghost['loop_old'] = snapshot({k: v for k, v in env.vars.items()})
+        mods = list(spec.get('modifies', ()))
+        objs = []
+        if not mods:
+            mods, objs = self.auto_modifies(node, env, assigned)
         for name in sorted(assigned):
             if name in env.vars:
                 env.vars[name] = havoc_value(self, env.vars[name], name)
-        for path in spec.get('modifies', ()):
+        for path in mods:
             self.havoc_path(env, path)
+        for name, o in objs:
+            if isinstance(o, list):
+                # a python list mutated in the loop: rebind the local variable to a symbolic list
+                if name in env.vars and env.vars[name] is o:
+                    env.vars[name] = havoc_value(self, o, name)
+                else:
+                    raise Unsupported(f'loop mutates python list reachable as {name}')
+            else:
+                havoc_inplace(self, o, name)
+
+    _MUTATORS = {'append', 'pop', 'extend', 'remove', 'reverse', 'insert', 'clear', 'add', 'update', 'popleft',
+                 'appendleft', 'setdefault', 'discard'}
+
+    def auto_modifies(self, node, env, assigned):
+        """which heap locations may the loop body write?  From the body's syntax and the `modifies`
+        of the contracts of the functions it calls.  Returns (paths, [(name, object)])."""
+        paths, objs = [], []
+
+        def simple(e):
+            if isinstance(e, ast.Name):
+                return e.id
+            if isinstance(e, ast.Attribute):
+                b = simple(e.value)
+                return None if b is None else f'{b}.{e.attr}'
+            return None
+
+        def val(path):
+            parts = path.split('.')
+            if parts[0] in assigned:
+                return None
+            found, o = env.lookup(parts[0])
+            if not found:
+                return None
+            for p in parts[1:]:
+                if isinstance(o, HObj) and p in o.f:
+                    o = o.f[p]
+                else:
+                    return None
+            return o
+
+        def add_obj(path):
+            o = val(path)
+            if isinstance(o, (ZList, HDict, list, HByteArray)):
+                if not any(x is o for _, x in objs):
+                    objs.append((path, o))
+
+        def from_contract(key, argmap):
+            c = self.reg.get(key) if self.reg else None
+            if c is None:
+                if self.reg and self.reg.policy(key) == 'inline':
+                    return
+                raise Unsupported(f'loop body calls {key} which has no contract')
+            if c.modifies is None:
+                raise Unsupported(f'loop body calls {key} whose contract has no modifies clause')
+            for m in c.modifies:
+                head, _, rest = m.partition('.')
+                base = argmap.get(head)
+                if base is None:
+                    raise Unsupported(f'loop body: cannot map modifies path {m} of {key}')
+                full = base + ('.' + rest if rest else '')
+                o = val(full)
+                if isinstance(o, (ZList, HDict, list)):
+                    add_obj(full)
+                elif isinstance(o, HObj):
+                    add_obj_deep(full, o)
+                elif full not in paths:
+                    paths.append(full)
+
+        def add_obj_deep(path, o):
+            for k, x in o.f.items():
+                if isinstance(x, (ZList, HDict)):
+                    add_obj(f'{path}.{k}')
+                elif isinstance(x, HObj):
+                    add_obj_deep(f'{path}.{k}', x)
+                elif f'{path}.{k}' not in paths:
+                    paths.append(f'{path}.{k}')
+
+        for n in ast.walk(ast.Module(body=node.body, type_ignores=[])):
+            if isinstance(n, (ast.Assign, ast.AugAssign, ast.Delete)):
+                tg = n.targets if isinstance(n, (ast.Assign, ast.Delete)) else [n.target]
+                for t in tg:
+                    if isinstance(t, ast.Subscript):
+                        b = simple(t.value)
+                        if b is None:
+                            raise Unsupported('loop body stores through a complex expression')
+                        add_obj(b)
+                    elif isinstance(t, ast.Attribute):
+                        b = simple(t)
+                        if b is None:
+                            raise Unsupported('loop body stores through a complex expression')
+                        if b.split('.')[0] not in assigned and b not in paths:
+                            paths.append(b)
+            if not isinstance(n, ast.Call):
+                continue
+            f = n.func
+            if isinstance(f, ast.Attribute):
+                b = simple(f.value)
+                o = val(b) if b is not None else None
+                if isinstance(o, (ZList, HDict, list, HByteArray, SymSet)):
+                    if f.attr in self._MUTATORS:
+                        add_obj(b)
+                    continue
+                if isinstance(o, HObj):
+                    m = None
+                    for c in o.cls.__mro__:
+                        if f.attr in c.__dict__:
+                            m = c.__dict__[f.attr]
+                            break
+                    key = self.src.key_of(m) if m is not None else None
+                    if key is None:
+                        raise Unsupported(f'loop body calls unknown method {f.attr}')
+                    from_contract(key, {'self': b})
+                    continue
+                continue     # method of an immutable / module-level value
+            if isinstance(f, ast.Name):
+                found, fv = env.lookup(f.id)
+                if not found:
+                    fv = (self.frames[-1]['globs'] if self.frames else {}).get(f.id)
+                key = self.src.key_of(fv) if isinstance(fv, (types.FunctionType,)) else None
+                if key is None:
+                    continue
+                node_f = self.src.node(key)
+                pnames = [a.arg for a in node_f.args.args]
+                argmap = {}
+                for pn, a in zip(pnames, n.args):
+                    sp = simple(a)
+                    if sp is not None:
+                        argmap[pn] = sp
+                from_contract(key, argmap)
+        return paths, objs
 
     def havoc_path(self, env, path):
         from .heap import havoc_inplace, havoc_value
@@ -1475,10 +1661,6 @@ class Interp:
             except BaseException as ex:      # noqa: BLE001
                 raise PyRaise(type(ex), PyExcVal(type(ex), ex.args))
         raise Unsupported(f'call to {f.key}: no contract in the sidecar')
-
-
-class SpecAbort(Exception):
-    pass
 
 
 class _Missing:
